@@ -268,7 +268,7 @@ static void case_c07(const args_t *a, long c, rng_t *r)
 	gen_model(r, &sh, 8 + rndn(r, 60), rndp(r, 300), &G.universe); shape_free(&sh);
 	for (int d = 0; d < NF; d++) { snprintf(G.disk[d].path, sizeof G.disk[d].path, "%s/f%d.mtbl", G.dir, d); if (rndp(r, 700)) write_table_file(r, d); }
 	write_setfile_version(r);
-	{ static const long T0[] = {0, 0, 1, 4, 30, 59, 1000, 86400}; G.vnow.tv_sec = PICK(r, T0) + (long)rndn(r, 2); G.vnow.tv_nsec = rndn(r, 1000); }   /* also a process started right after boot */
+	{ static const long T0[] = {0, 0, 1, 4, 30, 59, 1000, 86400}; G.vnow.tv_sec = PICK(r, T0) + (long)rndn(r, 2); G.vnow.tv_nsec = 1 + rndn(r, 1000); }   /* also a process started right after boot */
 	G.forced_pending = 1;          /* a fresh fileset must load on its first source operation */
 	G.active = 1;
 	/* original handle */
